@@ -59,7 +59,7 @@ CLAIMED = {
         note="pysqlite implicit-transaction semantics are modelled and validated live on SQLite only.",
         technique=T_GENERIC + " + exhaustive fault injection through before_cursor_execute"),
     "C12": dict(engine="offline", ref="6/C12",
-        text="Proved for all inputs: literal round trip (NULL, ints, arbitrary strings), statement splitting recovers exactly the emitted statements, closedness of every rendered statement, lexer round trip, version-table statements read back; same_effect proved in _partial form (decidable hypotheses evaluated by the driver on every case) with a kernel-checked counterexample for the TAB defect. The property itself is observed on the real code on every run (online vs offline script executed on SQLite).",
+        text="Proved for all inputs: literal round trip (NULL, ints, arbitrary strings), statement splitting recovers exactly the emitted statements, closedness of every rendered statement, lexer round trip, version-table statements read back; same_effect proved in _partial form (decidable hypotheses evaluated by the driver on every case) with a kernel-checked counterexample for the TAB defect. same_effect_upgrade_plan / same_effect_downgrade_plan: for every loaded history (branches, merges, several roots, dependencies) and every plan Alembic computes, with the version operations of the bookkeeping model (C03) along it, the head-set hypothesis midOk is derived from C03's invariant, so only the bodies remain parameters. The property itself is observed on the real code on every run (online vs offline script executed on SQLite).",
         note="SQLite executor; SQLAlchemy compilation and exotic literal rendering (floats, Decimal, dates) are covered by the implementation-side oracle only; readsBack for body statements is a decidable hypothesis, not proved.",
         technique=T_GENERIC),
     "C13": dict(engine="alter", ref="6/C13",
